@@ -33,8 +33,9 @@ def showStep : Step → String
 def tokenSum (steps : List Step) : Nat :=
   steps.foldl (fun acc s => match s with | .token _ n => acc + n | _ => acc) 0
 
-/-- the hook `VERIF_NO_PROGRESS_LIMIT` compiled into the real parser under `oq3_verif` -/
-def noProgressLimit : Nat := 2000
+/-- the hook compiled into the real parser under `oq3_verif`:
+`VERIF_NO_PROGRESS_BASE + VERIF_NO_PROGRESS_PER_TOKEN * input length` -/
+def noProgressLimit (n : Nat) : Nat := 2000 + 8 * n
 
 def showResult (r : Except Outcome (Array Ev × Nat)) : String :=
   match r with
@@ -53,6 +54,6 @@ def parseLine (line : String) : String :=
   match parseCase line with
   | .error e => "MODEL-ERROR bad case line: " ++ e
   | .ok (kinds, joint) =>
-    showResult (parseSourceFile (defaultFuel kinds.size) kinds joint noProgressLimit)
+    showResult (parseSourceFile (defaultFuel kinds.size) kinds joint (noProgressLimit kinds.size))
 
 end Oq3.Driver
